@@ -4,6 +4,8 @@ use crate::air::{AirStmt, AsmLine};
 use crate::runtime::RunState;
 use crate::symbol::Span;
 use crate::{dprintln, AsmParser};
+#[cfg(lace_verif)]
+use crate::verif_eprintln as eprintln;
 
 pub fn eval(state: &mut RunState, line: &str) {
     // Required to make temporarily 'static
